@@ -632,6 +632,8 @@ func (cmd *Command) printDiagnostics(cs []*lint.Analyzer, diagnostics []diagnost
 			dj := diagnostics[j]
 			pi := di.Position
 			pj := dj.Position
+			ei := di.End
+			ej := dj.End
 
 			if pi.Filename != pj.Filename {
 				return pi.Filename < pj.Filename
@@ -645,10 +647,28 @@ func (cmd *Command) printDiagnostics(cs []*lint.Analyzer, diagnostics []diagnost
 			if di.Message != dj.Message {
 				return di.Message < dj.Message
 			}
-			if di.BuildName != dj.BuildName {
-				return di.BuildName < dj.BuildName
+			if di.Category != dj.Category {
+				return di.Category < dj.Category
 			}
-			return di.Category < dj.Category
+			// Order by the rest of the descriptor before ordering by build name.
+			// The deduplication below only looks at adjacent diagnostics,
+			// so all diagnostics with the same descriptor have to end up next to each other.
+			if pi.Offset != pj.Offset {
+				return pi.Offset < pj.Offset
+			}
+			if ei.Filename != ej.Filename {
+				return ei.Filename < ej.Filename
+			}
+			if ei.Line != ej.Line {
+				return ei.Line < ej.Line
+			}
+			if ei.Column != ej.Column {
+				return ei.Column < ej.Column
+			}
+			if ei.Offset != ej.Offset {
+				return ei.Offset < ej.Offset
+			}
+			return di.BuildName < dj.BuildName
 		})
 
 		filtered := []diagnostic{
